@@ -56,14 +56,14 @@ CHECKS.update({
     "C06": dict(
         engine="E1+E2+E3",
         category="exploration",
-        text="Generated histories with drops at every life-cycle point x scripted cancel-race outcomes x full/non-full queue: SQEs published by each drop are diffed against the model (exactly one ASYNC_CANCEL for that user_data iff running and room), the operation-state block and resources must be live until / dead after the Ring::poll that consumes the final CQE, never freed twice, nothing live at the end. One case in five is a multi-completion case (drops after some multishot results, between the two completions of a zero-copy send, after the Ring): reclamation exactly once after the final completion, not the first.",
+        text="Generated histories with drops at every life-cycle point x scripted cancel-race outcomes x full/non-full queue: SQEs published by each drop are diffed against the model (exactly one ASYNC_CANCEL for that user_data iff running and room), the operation-state block and resources must be live until / dead after the Ring::poll that consumes the final CQE, never freed twice, nothing live at the end. One case in five is a multi-completion case (drops after some multishot results, between the two completions of a zero-copy send, after the Ring): reclamation exactly once after the final completion, not the first; the owned ReceiveSignals iterator (one operation state reset and reused per item, dropped or taken apart with into_inner at any point). One case in eleven is a composite operation of the C10 driver (state reset and reused from step to step) under a leak / double-free audit. One case in five: C06b, drops racing the completion handler on another thread under the baton scheduler.",
         design_ref="5/C06",
         technique="model-based property testing; cancel-SQE diff oracle + allocation-lifetime oracle from a tracking allocator",
     ),
     "C09": dict(
         engine="E1+E3",
         category="fault_enumeration",
-        text="Per operation a scripted fault sequence {EINTR,ECANCELED}^k (k<=3) before a final outcome; the kernel must see k+1 byte-identical SQEs, the future never shows the fault, the result is the last attempt's and contains no bytes scribbled by interrupted attempts.",
+        text="Per operation a scripted fault sequence {EINTR,ECANCELED}^k (k<=3) before a final outcome; the kernel must see k+1 byte-identical SQEs, the future never shows the fault, the result is the last attempt's and contains no bytes scribbled by interrupted attempts. One history in four runs on a direct descriptor (the re-issue must carry IOSQE_FIXED_FILE like the original); multishot, zero-copy and ReceiveSignals operations are interrupted in the multi-completion driver.",
         design_ref="5/C09",
         technique="fault-injection property testing (generated fault sequences through the simulated kernel)",
     ),
@@ -122,7 +122,7 @@ CHECKS.update({
     "C07": dict(
         engine="E1+E2 + descriptor history driver",
         category="exploration",
-        text="Generated histories of descriptor-creating operations (regular and direct), explicit closes and drops on 1..8-entry rings; a close ledger fed by CLOSE SQEs, REGISTER_FILES_UPDATE(-1) and the interposed close(2) must show exactly one close per owned descriptor through a path matching its kind, no foreign close, never 0-2; every descriptor the simulated kernel returns must be wrapped by exactly one AsyncFd of the requested kind and number.",
+        text="Generated histories of descriptor-creating operations (regular and direct, incl. Signals::to_direct_descriptor over a real signalfd), explicit closes and drops on 1..8-entry rings; a close ledger fed by CLOSE SQEs, REGISTER_FILES_UPDATE(-1) and the interposed close(2) must show exactly one close per owned descriptor through a path matching its kind, no foreign close, never 0-2; every descriptor the simulated kernel returns must be wrapped by exactly one AsyncFd of the requested kind and number.",
         design_ref="5/C07",
         technique="stateful model-based property testing with a close ledger (simulated kernel + libc close interposition)",
     ),
@@ -142,7 +142,7 @@ CHECKS.update({
     "C12": dict(
         engine="E1+E2+E3",
         category="exploration",
-        text="Generated histories ending in a generated permutation of dropping {Ring, queue handles, AsyncFd, every future (unpolled/blocked/queued/running/abandoned/finished), ReadBufPool, ReadBufs}, some drops on a helper thread, then wake(): no panic, ring mappings unmapped exactly once with the right length, ring descriptor closed once and last, Ring drop submits/cancels/reclaims, pool memory never freed while registered, no descriptor, registration, heap block or waker clone left behind. Rings include single_issuer+defer_task_run ones (simulator K13: task-work completions visible only in enter(GETEVENTS)) and requests completing inline during the Ring's drop flush.",
+        text="Generated histories (one in seven with a completion queue of 1..4 entries and 3..14 running operations, so that the cancellations of the Ring's drop overflow it; one in five on a direct descriptor) ending in a generated permutation of dropping {Ring, queue handles, AsyncFd, every future (unpolled/blocked/queued/running/abandoned/finished), ReadBufPool, ReadBufs}, some drops on a helper thread, then wake(): no panic, ring mappings unmapped exactly once with the right length, ring descriptor closed once and last, Ring drop submits/cancels/reclaims, pool memory never freed while registered, no descriptor, registration, heap block or waker clone left behind. Rings include single_issuer+defer_task_run ones (simulator K13: task-work completions visible only in enter(GETEVENTS)) and requests completing inline during the Ring's drop flush.",
         design_ref="5/C12",
         technique="model-based property testing with generated teardown permutations; mmap/close ledger (libc interposition) and allocation-tracker oracles",
     ),
